@@ -292,3 +292,65 @@ def devirtualise_props(ctx, ev, outs: List[Outcome], flags: Tuple[str, ...] = ()
                     tail = ((o2.value, pol),)
                 res.append(Outcome(o.kind, o.value, gs0[:i] + tuple(extra) + o2.guards + tail + gs0[i + 1:], o.effects, o.asserts + o2.asserts, o.lineno, o.env, o.trace))
     return res
+
+
+# ---------------------------------------------------------------- closed string terms
+_STR_METHODS = ('startswith', 'endswith', 'strip', 'lstrip', 'rstrip', 'lower', 'upper', 'find', 'index', 'count', 'replace', 'removeprefix', 'removesuffix', 'isalpha', 'isdigit')
+
+
+def fold_closed(t: Term) -> Term:
+    """Value of a closed term over string / int / bool constants (string methods, indexing and slicing, len, comparisons,
+    in, not/and/or, conditional): the Python value as a Const, or the term itself where something is not closed."""
+    from .terms import Ite, SliceT, Sub
+    if isinstance(t, Const):
+        return t
+    try:
+        if isinstance(t, Call):
+            name, recv = call_name(t), call_recv(t)
+            args = [fold_closed(a) for a in t.args]
+            if recv is not None and name in _STR_METHODS and not t.kwargs:
+                rv = fold_closed(recv)
+                if isinstance(rv, Const) and isinstance(rv.value, str) and all(isinstance(a, Const) for a in args):
+                    return Const(getattr(rv.value, name)(*[a.value for a in args]))
+            if isinstance(t.func, Ext) and t.func.name in ('len', 'bool', 'str', 'int') and len(args) == 1 and isinstance(args[0], Const) and not t.kwargs:
+                return Const({'len': len, 'bool': bool, 'str': str, 'int': int}[t.func.name](args[0].value))
+            return t
+        if isinstance(t, Sub):
+            b = fold_closed(t.base)
+            if isinstance(b, Const) and isinstance(b.value, (str, tuple)):
+                if isinstance(t.index, SliceT):
+                    parts = [None if x is None else fold_closed(x) for x in (t.index.lo, t.index.hi, t.index.step)]
+                    if all(x is None or (isinstance(x, Const) and isinstance(x.value, int)) for x in parts):
+                        return Const(b.value[slice(*[None if x is None else x.value for x in parts])])
+                else:
+                    i = fold_closed(t.index)
+                    if isinstance(i, Const) and isinstance(i.value, int):
+                        return Const(b.value[i.value])
+            return t
+        if isinstance(t, Op):
+            args = [fold_closed(a) for a in t.args]
+            if not all(isinstance(a, Const) for a in args):
+                return t
+            vs = [a.value for a in args]
+            if t.op == 'not' and len(vs) == 1:
+                return Const(not vs[0])
+            if t.op in ('-', 'neg', 'usub') and len(vs) == 1:
+                return Const(-vs[0])
+            if t.op == 'and':
+                return Const(all(vs))
+            if t.op == 'or':
+                return Const(any(vs))
+            if len(vs) == 2:
+                import operator as _o
+                table = {'==': _o.eq, '!=': _o.ne, '<': _o.lt, '<=': _o.le, '>': _o.gt, '>=': _o.ge, 'is': _o.is_, 'is not': _o.is_not,
+                         'in': lambda a, b: a in b, 'not in': lambda a, b: a not in b, '+': _o.add}
+                if t.op in table:
+                    return Const(table[t.op](vs[0], vs[1]))
+            return t
+        if isinstance(t, Ite):
+            c = fold_closed(t.test)
+            if isinstance(c, Const):
+                return fold_closed(t.a if c.value else t.b)
+    except Exception:
+        return t
+    return t
